@@ -249,7 +249,8 @@ def _expr(draw, model, env, depth):
             return ["count", src], ["int"]
         if k == 5:
             return ["len", src], ["int"]
-        return ["idx", src], el
+        # the index written as a constant, a negative number or a computed expression: always one item
+        return ["idx", src, draw(st.sampled_from(["0", "0", "1", "-1", "2 - 1", "-(1)", "len(%s) - 1"]))], el
     if c == 9:
         return draw(_bool(model, env, depth - 1)), ["bool"]
     if c == 10:
@@ -441,7 +442,8 @@ def render(e):
     if k == "len":
         return f"len({render(e[1])})"
     if k == "idx":
-        return f"{_pr(render(e[1]))}[0]"
+        ix = e[2] if len(e) > 2 else "0"
+        return f"{_pr(render(e[1]))}[{ix % render(e[1]) if '%s' in ix else ix}]"
     if k in ("cmp", "num"):
         return f"({render(e[2])} {e[1]} {render(e[3])})"
     if k == "bool":
